@@ -13,12 +13,13 @@ import Driver.Context
 import Driver.Middleware
 import Driver.Adapter
 import Driver.Audit
+import Driver.Topic
 import Driver.NatsServer
 
 open Driver
 
 def steppers : List (String → List String → Option String) :=
-  [stepHeaders, stepRegistry, stepThrift, stepOutBuf, stepProcessor, stepContext, stepContextHeap, stepMiddleware, stepAdapter, stepAudit, stepNatsServer]
+  [stepHeaders, stepRegistry, stepThrift, stepOutBuf, stepProcessor, stepContext, stepContextHeap, stepMiddleware, stepAdapter, stepAudit, stepNatsServer, stepTopic]
 
 def step (line : String) : String :=
   match (line.splitOn " ").filter (· ≠ "") with
